@@ -420,6 +420,96 @@ def from_json_filters(tree):
     raise ExtractionError("JSONField.from_json: unrecognised mapping passed to _set_fields")
 
 
+# ---------------------------------------------------------------- who writes validated properties into the graph
+
+USER_FILES = ["model_element", "node", "component", "interface", "network_service", "link", "composite_node", "topology"]
+VALIDATED_PROPS = {"PROP_NAME": "name", "PROP_LABELS": "labels", "PROP_TAGS": "tags", "PROP_BOOT_SCRIPT": "boot_script",
+                   "PROP_USER_DATA": "user_data", "PROP_MEAS_DATA": "mf_data", "PROP_LAYOUT_DATA": "layout_data",
+                   "PROP_PEER_LABELS": "peer_labels", "PROP_LABEL_ALLOCATIONS": "label_allocations"}
+GRAPH_WRITE_CALLS = {"update_node_property", "update_node_properties", "update_nodes_property", "update_link_property",
+                     "update_link_properties"}
+# public methods of fim.user classes that take a name (or one of the validated values) and create / rewrite an element:
+# every one of them has a driver in harness/props/c16.py or is listed there as constructed-through-__init__
+EXPECTED_ENTRY_POINTS = {
+    "ModelElement.rename", "ModelElement.update_labels",
+    "Node.__init__", "Component.__init__", "Interface.__init__", "NetworkService.__init__", "Link.__init__",
+    "CompositeNode.__init__", "PortMirrorService.__init__", "ModelElement.__init__",
+    "Node.add_component", "Node.add_network_service", "Node.add_storage", "NetworkService.add_interface",
+    "Interface.add_child_interface", "Topology.add_node", "Topology.add_facility", "Topology.add_switch", "Topology.add_link",
+    "Topology.add_network_service", "ExperimentTopology.add_port_mirror_service", "AdvertizedTopology.add_node",
+    "AdvertizedTopology.add_link"}
+ENTRY_PARAMS = {"name", "new_name", "labels", "tags", "boot_script", "user_data", "mf_data", "layout_data"}
+
+
+def _setter_backed_attrs(me_cls):
+    """properties of ModelElement whose setter hands the value to self.set_property('<attr>', value) unconditionally
+    (possibly after storing it in a private field / under `if topo is not None`)"""
+    out = set()
+    for fn in me_cls.body:
+        if not isinstance(fn, ast.FunctionDef):
+            continue
+        for d in fn.decorator_list:
+            if isinstance(d, ast.Attribute) and d.attr == "setter" and len(fn.args.args) == 2:
+                val = fn.args.args[1].arg
+                for n in ast.walk(fn):
+                    if (isinstance(n, ast.Call) and isinstance(n.func, ast.Attribute) and n.func.attr == "set_property"
+                            and len(n.args) == 2 and isinstance(n.args[0], ast.Constant) and n.args[0].value == fn.name
+                            and isinstance(n.args[1], ast.Name) and n.args[1].id == val):
+                        out.add(fn.name)
+    return out
+
+
+def graph_writers():
+    """-> (raw writers [(Class.method, prop, guard)], entry points set)"""
+    raw, entries = [], set()
+    me_tree, _ = parse("fim/user/model_element.py")
+    backed = _setter_backed_attrs(find_class(me_tree, "ModelElement"))
+    for f in USER_FILES:
+        tree, src = parse("fim/user/%s.py" % f)
+        for cls in [n for n in tree.body if isinstance(n, ast.ClassDef)]:
+            for fn in [n for n in cls.body if isinstance(n, ast.FunctionDef)]:
+                where = "%s.%s" % (cls.name, fn.name)
+                is_prop = any(isinstance(d, ast.Attribute) or (isinstance(d, ast.Name) and d.id == "property") for d in fn.decorator_list)
+                params = {a.arg for a in fn.args.args + fn.args.kwonlyargs}
+                public = not fn.name.startswith("_") or fn.name == "__init__"
+                if public and not is_prop and not fn.name.startswith(("remove_", "get_")) and \
+                        (params & ENTRY_PARAMS or fn.name == "update_labels"):
+                    entries.add(where)
+                stmts = list(ast.walk(fn))
+                for n in stmts:
+                    if not (isinstance(n, ast.Call) and isinstance(n.func, ast.Attribute) and n.func.attr in GRAPH_WRITE_CALLS):
+                        continue
+                    kw = {k.arg: k.value for k in n.keywords}
+                    if n.func.attr == "update_node_properties":
+                        d = kw.get("props")
+                        ok = False
+                        if isinstance(d, ast.Name):
+                            for a in stmts:
+                                if (isinstance(a, ast.Assign) and getattr(a.targets[0], "id", None) == d.id and isinstance(a.value, ast.Call)
+                                        and isinstance(a.value.func, ast.Attribute) and a.value.func.attr.endswith("sliver_to_graph_properties_dict")):
+                                    ok = True
+                        if not ok:
+                            raise ExtractionError("%s writes a property dict that does not come from a sliver" % where)
+                        continue                         # validated by the sliver setters (modelled: set_name, set_boot_script, ...)
+                    pn = kw.get("prop_name")
+                    if not (isinstance(pn, ast.Attribute) and pn.attr.startswith("PROP_")):
+                        raise ExtractionError("%s: graph write with a property name that is not a PROP_ constant" % where)
+                    if pn.attr not in VALIDATED_PROPS:
+                        continue
+                    attr = VALIDATED_PROPS[pn.attr]
+                    pv = kw.get("prop_val")
+                    guard = "unguarded"
+                    if isinstance(pv, ast.Name):
+                        for st in fn.body:               # a top-level statement before the write: self.<attr> = <same value>
+                            if st.lineno >= n.lineno:
+                                break
+                            if (isinstance(st, ast.Assign) and isinstance(st.targets[0], ast.Attribute) and getattr(st.targets[0].value, "id", "") == "self"
+                                    and st.targets[0].attr == attr and attr in backed and isinstance(st.value, ast.Name) and st.value.id == pv.id):
+                                guard = "setter:" + attr
+                    raw.append((where, attr, guard))
+    return sorted(raw), entries
+
+
 def _doc(rx):
     return rx.replace("-/", "- /").replace("/-", "/ -")
 
@@ -549,6 +639,16 @@ def generate():
     body += "def jsonMax : List (String × Nat) := %s\n" % lean_list(["(%s, %d)" % (lean_str(c), m) for c, m in jl])
     body += "def jsonTooLong (n max : Nat) : Bool := decide (n %s max)\n" % jop
 
+    raw, entries = graph_writers()
+    if entries != EXPECTED_ENTRY_POINTS:
+        raise ExtractionError("entry points that take a name/labels/tags/... changed: new %s, gone %s - every one needs a driver in the C16 harness"
+                              % (sorted(entries - EXPECTED_ENTRY_POINTS), sorted(EXPECTED_ENTRY_POINTS - entries)))
+    body += "\n/-- methods of fim.user that write a validated property straight into the graph (not through a sliver), and what\n"
+    body += "    routes the value through the validator before the write (\"unguarded\" = nothing does) -/\n"
+    body += "def rawWriters : List (String × String × String) := %s\n" % lean_list(
+        ["(%s, %s, %s)" % (lean_str(a), lean_str(b), lean_str(c)) for a, b, c in raw])
+    report["raw_writers"] = raw
+    report["entry_points"] = sorted(entries)
     report["anchors"] = {"labels.list": anchors["List"], "labels.scalar": anchors["Scalar"],
                          "tags": anchor_of(tkind, te, "Tags"), "names": "see nameAnchor"}
     report["names"] = nlist
